@@ -20,6 +20,18 @@ if TYPE_CHECKING:
 logger = logging.getLogger(__name__)
 
 
+def _enter_down(entity: object) -> None:
+    """One more crash/pause window covers the entity: it is down."""
+    entity._down_windows = getattr(entity, "_down_windows", 0) + 1  # type: ignore[attr-defined]
+    entity._crashed = True  # type: ignore[attr-defined]
+
+
+def _leave_down(entity: object) -> None:
+    """One window ended: the entity is back only when no other window still covers it."""
+    entity._down_windows = max(0, getattr(entity, "_down_windows", 0) - 1)  # type: ignore[attr-defined]
+    entity._crashed = entity._down_windows > 0  # type: ignore[attr-defined]
+
+
 @dataclass(frozen=True)
 class CrashNode:
     """Crash a node at a specific time, optionally restart later.
@@ -44,7 +56,7 @@ class CrashNode:
         events: list[Event] = []
 
         def crash(e: Event) -> None:
-            entity._crashed = True  # type: ignore[attr-defined]
+            _enter_down(entity)
             logger.info("[FaultInjection] Crashed '%s' at %s", entity_name, e.time)
 
         events.append(
@@ -59,7 +71,7 @@ class CrashNode:
         if self.restart_at is not None:
 
             def restart(e: Event) -> None:
-                entity._crashed = False  # type: ignore[attr-defined]
+                _leave_down(entity)
                 logger.info(
                     "[FaultInjection] Restarted '%s' at %s",
                     entity_name,
@@ -101,11 +113,11 @@ class PauseNode:
         events: list[Event] = []
 
         def pause(e: Event) -> None:
-            entity._crashed = True  # type: ignore[attr-defined]
+            _enter_down(entity)
             logger.info("[FaultInjection] Paused '%s' at %s", entity_name, e.time)
 
         def resume(e: Event) -> None:
-            entity._crashed = False  # type: ignore[attr-defined]
+            _leave_down(entity)
             logger.info("[FaultInjection] Resumed '%s' at %s", entity_name, e.time)
 
         events.append(
